@@ -50,7 +50,10 @@ def inj_job(job):
     alpha = r.choice([0.7, 0.9, 0.99])
     m.get_aggregate_predictions(rep, non, unx, ["postal_code"], "margin", lhs_called_contests=lhs, rhs_called_contests=rhs)
     m.get_aggregate_prediction_intervals(rep, non, unx, ["postal_code"], alpha, None, "margin", lhs_called_contests=lhs, rhs_called_contests=rhs, stop_model_call=stops)
-    weights = {n: float(r.randint(0, 40)) for n in names}
+    # the caller's dictionary in arbitrary insertion order (a dict literal is rarely written alphabetically)
+    order = list(names)
+    r.shuffle(order)
+    weights = {n: float(r.randint(0, 40)) for n in order}
     base = float(r.choice([0, 0, 3, 34]))
     out = {"job": list(job), "names": names, "preds_raw": preds.tolist(), "pred_adj": np.asarray(m.aggregate_pred_margin).flatten().tolist(),
            "d1": np.asarray(m.divided_error_B_1).tolist(), "d2": np.asarray(m.divided_error_B_2).tolist(), "lhs": lhs, "rhs": rhs, "stops": stops,
@@ -173,6 +176,7 @@ def api_job(job):
         return out
     try:
         weights = {s: float(i + 3) for i, s in enumerate(sorted(case["states"]))}
+        weights = {s: weights[s] for s in sorted(weights, reverse=True)}          # written in reverse alphabetical order by the caller
         df = r["client"].get_national_summary_votes_estimates(weights, 5, [0.7, 0.9])
         out["summary"] = df.to_dict("records")
         # a second summary call on the same client with another weighting / base: a function of the contests only
